@@ -232,7 +232,9 @@ Proof.
     destruct (first_mistyped (rtype y) rest2); inversion Hc; subst ec.
     cbn [names_of] in Hn. rewrite (check_list_plain _ _ H Hn _ Hi2). reflexivity.
   - cbn [names_of] in Hn. cbn [Checker.check] in Hc. inv_bind Hc as l2 Hl2 Hc. inv_bind Hl2 as l1 Hl1 Hl2.
-    inversion Hl2; subst l2. inv_bind Hc as u Hu Hc. inversion Hc; subst ec.
+    inversion Hl2; subst l2. inv_bind Hc as f2 Hf2 Hc. inv_bind Hc as u Hu Hc. destruct u. inversion Hc; subst ec.
+    pose proof (check_literal_back fo _ _ _ Hf2) as Hlit. pose proof (shape_literal _ _ Hu) as Hshl.
+    assert (Hfeq : e0_2 = f2) by (destruct f2; try contradiction; exact Hlit). subst f2.
     rewrite (IHe0_1 Hn _ Hl1), rw_plain by assumption. reflexivity.
 Qed.
 
@@ -359,7 +361,7 @@ Proof.
   unfold fields_plain in Hp. rewrite Forall_forall in Hp, Ht. specialize (Hp _ Hin). specialize (Ht _ Hin). cbn [snd] in Hp, Ht.
   destruct Ht as [Hi _].
   rewrite (infer_agree all_allowed no_env (env_of fields) d) by (intros s0 Hs0; rewrite Hp in Hs0; contradiction).
-  rewrite Hi. reflexivity.
+  cbn [snd] in Hi. rewrite Hi. reflexivity.
 Qed.
 
 Theorem select_sound : forall fields w order s2,
@@ -451,6 +453,32 @@ Proof.
   cbn [bind app check_stmt_calls]. rewrite Hcw. cbn [bind].
   replace (calls_fields fields) with (@Ok unit tt); [reflexivity|].
   symmetry. apply calls_fields_ok. apply Forall_forall. intros nf Hin. apply (Hfields nf Hin).
+Qed.
+
+(* ---------------------------------------------------------------- all statement forms *)
+Definition stmt_fields_plain (s : stmt) : Prop :=
+  match s with SSelect f _ _ => fields_plain f | _ => True end.
+
+Theorem build_check_sound : forall s s2,
+  build_check fo true s = Ok s2 -> stmt_no_refs s = true -> stmt_params_static s2 = true ->
+  stmt_fields_plain s -> stmt_typed fo s = true.
+Proof.
+  intros s s2 H Hn Hps Hp. destruct s; cbn [stmt_typed].
+  - exact (select_sound _ _ _ _ H Hp Hn Hps).
+  - exact (put_sound fo _ _ H Hn Hps).
+  - exact (remove_sound fo _ _ H Hn Hps).
+  - exact (delete_sound fo _ _ H Hn Hps).
+Qed.
+
+Theorem build_check_complete : forall s,
+  stmt_typed fo s = true -> stmt_no_same_field s = true -> stmt_fields_plain s ->
+  exists s2, build_check fo true s = Ok s2.
+Proof.
+  intros s H Hs Hp. destruct s; cbn [stmt_typed] in H.
+  - exact (select_complete _ _ _ H Hp Hs).
+  - exact (put_complete fo _ H Hs).
+  - exact (remove_complete fo _ H Hs).
+  - exact (delete_complete fo _ H Hs).
 Qed.
 
 End Sel.
